@@ -56,7 +56,8 @@ CONSTANTS
   DTTLs,        \* NS / DS TTLs a parent may publish
   Ceil,         \* authority maximumTTL (12 h)
   ProvCap,      \* lookupV4Nss provisional cap (1 min)
-  MaxVer,       \* bound on re-pointings per zone
+  MaxVer,       \* bound on the version of one zone's parent-side truth
+  MaxPubOps,    \* bound on parent-side changes in one behaviour
   PubInits,     \* initial parent-side publications explored
   Res           \* resolver query slots
 
@@ -489,22 +490,26 @@ SetUntil(e, deadline, t, grant, anc, ver, prov) ==
                                prov |-> prov]]
     ELSE deleg
 
-(* ---- the parent side changes its mind ----------------------------------- *)
+(* ---- the parent side changes its mind (every change is a new version) --- *)
+RECURSIVE SumVer(_)
+SumVer(S) == IF S = {} THEN 0 ELSE LET z == CHOOSE x \in S : TRUE IN (pub[z].ver - 1) + SumVer(S \ {z})
+MayChange(e) == pub[e].ver < MaxVer /\ SumVer(Zones) < MaxPubOps
+
 ParentWithdraw(e) ==
-  /\ pub[e].present
-  /\ pub' = [pub EXCEPT ![e].present = FALSE]
+  /\ pub[e].present /\ MayChange(e)
+  /\ pub' = [pub EXCEPT ![e].present = FALSE, ![e].ver = @ + 1]
   /\ dreply' = [kind |-> "parent", e |-> e]
   /\ UNCHANGED <<now, deleg, granted, rs, dans, avars>>
 
 ParentRepoint(e) ==
-  /\ pub[e].ver < MaxVer
+  /\ MayChange(e)
   /\ pub' = [pub EXCEPT ![e].present = TRUE, ![e].ver = @ + 1]
   /\ dreply' = [kind |-> "parent", e |-> e]
   /\ UNCHANGED <<now, deleg, granted, rs, dans, avars>>
 
 ParentRetime(e, ns, ds) ==
-  /\ pub[e].present /\ (pub[e].ns # ns \/ pub[e].ds # ds)
-  /\ pub' = [pub EXCEPT ![e].ns = ns, ![e].ds = ds]
+  /\ pub[e].present /\ (pub[e].ns # ns \/ pub[e].ds # ds) /\ MayChange(e)
+  /\ pub' = [pub EXCEPT ![e].ns = ns, ![e].ds = ds, ![e].ver = @ + 1]
   /\ dreply' = [kind |-> "parent", e |-> e]
   /\ UNCHANGED <<now, deleg, granted, rs, dans, avars>>
 
@@ -631,11 +636,11 @@ InitD(p0) ==
 
 NextD ==
   \/ \E e \in Zones : ParentWithdraw(e) \/ ParentRepoint(e)
-  \/ \E e \in Zones, ns \in DTTLs, ds \in DTTLs : ParentRetime(e, ns, ds)
+  \/ \E e \in Zones, ns \in DTTLs, ds \in DTTLs \cup {NoDS} : ParentRetime(e, ns, ds)
   \/ \E r \in Res, z \in Zones : SeedFromDelegCache(r, z)
   \/ \E r \in Res : AskZone(r) \/ SelfReferral(r) \/ DescendCached(r) \/ ProvisionalInsert(r)
   \/ \E r \in Res, how \in {"until", "dur"} : InsertDeleg(r, how)
-  \/ \E r \in Res, t \in DTTLs : AnswerFromLeaf(r, t)
+  \/ \E r \in Res, t \in RawTTLs : AnswerFromLeaf(r, t)
   \/ \E z \in Zones : ServeAnswer(z)
   \/ \E d \in Ticks : TickD(d)
 
